@@ -211,6 +211,10 @@ int main(int argc, char **argv) {
     syscall(SYS_kill, getpid(), s);
     // signals that are ignored or stop by default do not terminate: report that
     _exit(100);
+  } else if (!strcmp(c, "sigplain")) {
+    // what an ordinary program does: no change of mask or disposition, just the signal (the start state decides what happens)
+    syscall(SYS_kill, getpid(), atoi(argv[2]));
+    _exit(100);
   } else if (!strcmp(c, "sleep")) {
     struct timespec ts; long ms = atol(argv[2]);
     ts.tv_sec = ms / 1000; ts.tv_nsec = (ms % 1000) * 1000000L;
